@@ -435,7 +435,7 @@ def run(rep):
             jobs[("B", ext, eng)] = ex.submit(run_naming, ext, eng, len_b, ("none", "true", "false"), emit=True, tag="B", workers=1, coverage=True)
             jobs[("rt", ext, eng)] = ex.submit(run_rt, ext, eng, emit=True, workers=1, coverage=True)
         for eng in ENGINES:
-            jobs[("A", DOTTED, eng)] = ex.submit(run_naming, DOTTED, eng, len_a if thorough else len_a - 1, ("none",), emit=True,
+            jobs[("A", DOTTED, eng)] = ex.submit(run_naming, DOTTED, eng, len_a - 1, ("none",), emit=True,
                                                  tag="A", workers=1, coverage=True)
         # the engine given with the call differs from the one the Harvester was constructed with
         for eng, ctor in ([("joblib", "h5netcdf"), ("h5netcdf", "joblib")] if thorough else [("joblib", "h5netcdf")]):
